@@ -1,0 +1,16 @@
+//go:build verif
+
+package soymsg
+
+import "github.com/robfig/soy/ast"
+
+// Hooks for the /verif machinery (build tag verif only).
+
+func VerifFingerprint(b []byte) uint64                { return fingerprint(b) }
+func VerifHash32(b []byte, c uint32) uint32           { return hash32(b, 0, len(b), c) }
+func VerifToUpperUnderscore(s string) string          { return toUpperUnderscore(s) }
+func VerifCalcID(n *ast.MsgNode) uint64               { return calcID(n) }
+func VerifSetPlaceholderNames(n *ast.MsgNode)         { setPlaceholderNames(n) }
+func VerifHtmlTagNames() map[string]string            { return htmlTagNames }
+func VerifTagName(text []byte) (name, tagType string) { return tagName(text) }
+func VerifBaseName(n ast.Node, def string) string     { return genBasePlaceholderName(n, def) }
